@@ -165,3 +165,4 @@ struct Kernel {
 };
 
 extern Kernel K;
+std::string catalogue_output(const std::string &cmd, const std::string &in);
